@@ -188,6 +188,10 @@ form('nonproto-call-member-path', { ops: ['concat'], nodemand: true }, F => `w.o
 form('nonproto-call-callresult', { ops: ['concat'], nodemand: true }, F => `w.fobj${F.id()}().s1.concat.call(${F.f()}, ${F.s()})`)
 form('nonproto-apply-callresult', { ops: ['concat'], nodemand: true }, F => `w.f${F.id()}().concat.apply(${F.f()}, [${F.s()}, ${F.f()}])`)
 form('nonproto-call-computed-path', { ops: ['trim'], nodemand: true }, F => `w.o${F.id()}[w.k${F.id()}].trim.call(${F.f()})`)
+form('proto-apply-nested-array-elem', { ops: ['concat'] }, F => `String.prototype.concat.apply(${F.loc()}, [[${F.s()}, ${F.f()}], ${F.s()}])`)
+form('proto-apply-nested-array-deep', { ops: ['concat'] }, F => `String.prototype.concat.apply(${F.loc()}, [${F.f()}, [[${F.s()}], ${F.loc()}], { k: ${F.s()} }, [...w.it${F.id()}]])`)
+form('proto-call-array-arg', { ops: ['concat'] }, F => `String.prototype.concat.call(${F.loc()}, [${F.s()}, ${F.f()}], ${F.s()})`)
+form('call-array-arg', { ops: ['concat'] }, F => `${F.loc()}.concat([${F.s()}, [${F.f()}]], ${F.s()})`)
 form('proto-apply-spread-elem', { ops: ['concat'] }, F => `String.prototype.concat.apply(${F.loc()}, [${F.s()}, ...w.it${F.id()}])`)
 // optional chains
 form('opt-ident-call', { ops: ['trim'] }, F => `${F.loc()}?.trim()`)
